@@ -231,6 +231,18 @@ def _fact_agree(prog: Program, p: Path, e: Event, cls: str, args: List[V], const
             break
         if ev.kind == "decided":
             keys.append(ev.data["term"].key())
+    # the failing guard of a relational error must test the value the error reports, not a lossy image of it
+    if cls in ("MinValueValidationError", "MaxValueValidationError") and facts and len(args) >= 2 and is_cur_value(args[1]):
+        t = facts[-1][1]
+        if isinstance(t, Term) and t.op in ("lt", "eq"):
+            from ..vtable import lossy_image
+            for x in t.args:
+                how = lossy_image(x, args[1].key()) if isinstance(x, V) else None
+                if how and x.key() != args[1].key():
+                    record("FACT-AGREE", f"{construct} guard", "VIOLATED", site,
+                           f"the guard compares {how} of the value ({x.key()[:50]}) but the error states the value itself: "
+                           "the reported relation can be false for the reported value",
+                           "validate(schema.float.min(0.14).precision(1), 0.14): 'must be >= 0.14, but 0.14 given'")
     for i, a in enumerate(extra):
         c2 = f"{construct} arg{i + 2}"
         ak = a.key()
